@@ -11,7 +11,7 @@ one() {
   rsync -a --exclude=.git --exclude=single_nodehost_test_dir_safe_to_delete /repo/ "$D/repo/"
   mkdir -p "$D/verif"; cp /verif/known_findings.txt "$D/verif/" 2>/dev/null
   if ! ( cd "$D/repo" && GIT_DIR=/nonexistent git apply --whitespace=nowarn /verif/seeded/$id/patch.diff ); then echo "$id PATCH-FAIL" > $OUT/$id.out; rm -rf "$D"; return; fi
-  /verif/bin/dbcheck -prop all -repo "$D/repo" -verif "$D/verif" -noselftest 2>&1 | grep -E "^ *(VIOLATION|UNDECIDED|KNOWN|violation|undecided)" | sed "s#$D/repo/##g" > $OUT/$id.out
+  ${DBCHECK:-/verif/bin/dbcheck} -prop all -repo "$D/repo" -verif "$D/verif" -noselftest 2>&1 | grep -E "^ *(VIOLATION|UNDECIDED|KNOWN|violation|undecided)" | sed "s#$D/repo/##g" > $OUT/$id.out
   rm -rf "$D"
 }
 export -f one; export OUT
